@@ -15,12 +15,13 @@ func init() {
 	register(&PropMeta{
 		ID:          "C19",
 		Level:       "other",
-		Explanation: "Decides that the player runner's automation cannot volunteer chips: (R1) the call closure of the runner's table-update entry point (static calls, interface calls and every closure created inside it — an over-approximation) contains Actions calls only to pass, ready, check, fold and pay; the manual API of the runner is outside that closure; (R2) each automated action is guarded by the hand allowing exactly that action, with the priority pass ≫ ready > check > fold (check only on the not-ready edge, fold only on the not-ready ∧ not-check edge); (R3) pay amounts are exactly the posted ante under the ante-requested event and the posted SB / BB / dealer blind under the blinds-requested event with the matching position guard; (R4) the automation runs only when the player is suspended or inside the task handed to the time bank with duration ActionTime × Second, on the not-cancelled edge. NOT decided: that the time bank fires no earlier than the duration.",
+		Explanation: "Decides that the player runner's automation cannot volunteer chips: (R1) the call closure of the runner's table-update entry point (static calls, interface calls and every closure created inside it — an over-approximation) contains Actions calls only to pass, ready, check, fold and pay; the manual API of the runner is outside that closure; (R2) each automated action is guarded by the hand allowing exactly that action, with the priority pass ≫ ready > check > fold (check only on the not-ready edge, fold only on the not-ready ∧ not-check edge); (R3) pay amounts are exactly the posted ante under the ante-requested event and the posted SB / BB / dealer blind under the blinds-requested event with the matching position guard; (R4) the automation runs only when the player is suspended or inside the task handed to the time bank with duration ActionTime × Second, on the not-cancelled edge. (R5) the runner's time bank is assigned only by the constructor — so the next request's NewTask always cancels the pending task and no orphaned task can auto-play a stale request before the new thinking time has elapsed — and no time-bank operation lies on a path into the stale exit of the view handler. NOT decided: that the time bank fires no earlier than the duration.",
 		Rules: map[string]string{
 			"R1": "call closure of the auto-play entry point reaches only pass/ready/check/fold/pay; no known-nil error returned",
 			"R2": "guard ↔ action agreement and priority order",
 			"R3": "pay amounts are the posted ante / blind for the player's position",
 			"R4": "automation only when suspended or inside the action-time timer callback (not cancelled)",
+			"R5": "timer discipline: the runner's time bank is created once, by the constructor (a replaced time bank orphans the pending task, which then auto-plays a stale request before the new thinking time has elapsed); a view discarded by the staleness filter performs no time-bank operation",
 		},
 		Assumptions: []string{"timebank.NewTask(d, fn) does not call fn(false) before d has elapsed (d > 0)"},
 		Run:         checkC19,
@@ -103,6 +104,7 @@ func checkC19(c *Ctx) {
 	}
 	// the player runner: the Runner implementation that owns a time bank and a status
 	var entry *ssa.Function
+	var runnerT *types.Named
 	for _, t := range p.Implementers(ri) {
 		hasStatus := false
 		for _, f := range p.Methods(t) {
@@ -114,12 +116,15 @@ func checkC19(c *Ctx) {
 		}
 		if hasStatus {
 			entry = p.Method(t, "UpdateTableState")
+			runnerT = t
 		}
 	}
 	if entry == nil {
 		c.Bad("R1", "player-runner", "-", "no runner with a suspend status found")
 		return
 	}
+	// ---------------- R5 timer discipline (shared with C18.R7)
+	checkRunnerTimer(c, "R5", runnerT, entry)
 	allowed := map[string]bool{"Pass": true, "Ready": true, "Check": true, "Fold": true, "Pay": true}
 	reach := p.CG().Reach([]*ssa.Function{entry}, ReachOpts{Creation: true, RepoOnly: true})
 	c.Count("functions_in_autoplay_closure", len(reach.Order))
